@@ -213,7 +213,7 @@ func agree(exp verdict, got outcome) bool {
 		return false
 	}
 	if exp.Exp == "NJ" {
-		return true
+		return !(exp.NoT && got.Res == "T")
 	}
 	return exp.Exp == got.Res
 }
@@ -222,6 +222,8 @@ func describe(exp verdict, got outcome, where string) string {
 	switch {
 	case got.Res == "P":
 		return where + ": evaluation panicked"
+	case exp.NoT && got.Res == "T":
+		return where + ": a declared parameter has no value in either context (the expression happens to be decidable without it), yet the condition was reported MET: a missing parameter must make the evaluation fail rather than succeed"
 	case exp.Exp == "E" && got.Res == "T" && exp.Why == "missing-needed":
 		return where + ": a parameter the expression needs is absent from both contexts, yet the condition was reported MET"
 	case exp.Exp == "E" && exp.Why == "missing-needed":
@@ -254,7 +256,7 @@ func run(c *vk.Ctx) {
 		"(used/unused, shape, kind of mistake) | expected outcome and reason).")
 	c.Assume("The oracle's evaluator implements the CEL language definition for the template family only (own parsers for RFC 3339, Go duration syntax, IPv4/IPv6/CIDR); it was written without cel-go.")
 	c.Assume("Documented wire forms: bool/string as such; int/uint as integral JSON number or canonical decimal string; double as JSON number or exactly representable plain decimal string; duration as Go duration string; timestamp as RFC 3339; ipaddress as textual IPv4/IPv6; list/map of those. Other forms (\"5.0\", \"1e3\", \"+5\", \"0.1\" for double, leading zeros, lower-case t/z, zone ids) are not judged.")
-	c.Assume("Absent parameters that the expression does not need (unused, or short-circuited away under CEL's commutative ||/&&) are counted, not judged.")
+	c.Assume("Absent parameters that the expression does not need (unused, or short-circuited away under CEL's commutative ||/&&): only 'the condition is not reported met' is judged; whether the outcome is an error or 'not met' is counted.")
 
 	reps := c.Pick(2, 5)
 	pool := buildPool(c.Rand("pool"), reps)
